@@ -246,6 +246,7 @@ func (p *Program) runPath(ob *Obligation, fn *ssa.Function, prefix []int) (res *
 				res.End = pathEnd{Kind: EndUnsupported, Msg: fmt.Sprintf("INTERNAL: %v\n%s", r, trimStack(debug.Stack())), Pos: ex.curPos}
 			}
 		}
+		ex.killThreads()
 		if res.End.Kind == EndPanic && !ob.AllowPanic && !ex.inInit {
 			ex.reportPanic(res.End)
 		}
